@@ -67,6 +67,14 @@ func (c *Map) FindRegex(key *regexp.Regexp) []types.MatchData {
 		if key.MatchString(k) {
 			n += len(data)
 			matched = append(matched, data)
+		} else if !c.isCaseSensitive {
+			// The map is indexed by the lower-cased name, but the expression may
+			// have been written for the name as sent (e.g. ARGS:/^Foo$/ and
+			// Foo=1): also select the entries whose original name matches.
+			if orig := filterByOriginalKey(key, data); len(orig) > 0 {
+				n += len(orig)
+				matched = append(matched, orig)
+			}
 		}
 	}
 	if n == 0 {
@@ -87,6 +95,18 @@ func (c *Map) FindRegex(key *regexp.Regexp) []types.MatchData {
 		}
 	}
 	return result
+}
+
+// filterByOriginalKey returns the entries of data whose key, as originally
+// provided, matches the regular expression.
+func filterByOriginalKey(key *regexp.Regexp, data []keyValue) []keyValue {
+	var res []keyValue
+	for _, d := range data {
+		if key.MatchString(d.key) {
+			res = append(res, d)
+		}
+	}
+	return res
 }
 
 // FindString returns all map elements whose key matches the string.
